@@ -243,7 +243,10 @@ Section Alg.
   Inductive energy :=
   | EGauss (n : nat) (data : option vec) (icov : option vec) (e : expr)
   | EScale (c : A) (h : energy)
-  | EAdd (h1 h2 : energy).
+  | EAdd (h1 h2 : energy)
+  (* Linearization-level arithmetic on an energy's Linearization (inside a user-written apply):  *)
+  | EShift (neg : bool) (c : A) (h : energy)   (* lin + c / lin - c,  c a scalar or a scalar Field  (Linearization._myadd) *)
+  | ELScale (c : A) (h : energy).              (* lin * c,  c a scalar                                (Linearization.__mul__) *)
 
   Inductive mop :=
   | MSand (J : jop) (M : lop1)            (* SandwichOperator.make(J, M) = J^dagger M J  (prepend_jac) *)
@@ -275,6 +278,8 @@ Section Alg.
         end
     | EScale c h => amul c (evalE h r)
     | EAdd h1 h2 => aadd (evalE h1 r) (evalE h2 r)
+    | EShift neg c h => addsub neg (evalE h r) c
+    | ELScale c h => amul (evalE h r) c
     end.
 
   Fixpoint linE (om wm : bool) (h : energy) (r : env) : A * jop * option mop :=
@@ -302,6 +307,17 @@ Section Alg.
         (aadd v1 v2, JAd J1 J2,
          match m1, m2 with Some x, Some y => Some (MAdd x y) | _, _ => None end)
            (* if all(mm is not None for mm in metrics): res.add_metric(reduce(add, metrics)) *)
+    | EShift neg c h =>
+        let '(v, J, m) := linE om wm h r in
+        (addsub neg v c, J, m)
+        (* Linearization._myadd, np.isscalar(other) or other.jac is None:
+             return self.new(self._val-other if neg else self._val+other, self._jac, self._metric) *)
+    | ELScale c h =>
+        let '(v, J, m) := linE om wm h r in
+        (amul v c, JCh (Sc c) J, option_map (MScale c) m)
+        (* Linearization.__mul__, np.isscalar(other):
+             met = None if self._metric is None else self._metric.scale(other)
+             return self.new(self._val*other, self._jac.scale(other), met)          (any sign) *)
     end.
 
   (* dual-number evaluation of an energy (product rule applied to r * (N r), nothing simplified) *)
@@ -318,6 +334,8 @@ Section Alg.
         end
     | EScale c h => let (v, t) := evalED h r d in (amul c v, amul c t)
     | EAdd h1 h2 => let (v1, t1) := evalED h1 r d in let (v2, t2) := evalED h2 r d in (aadd v1 v2, aadd t1 t2)
+    | EShift neg c h => let (v, t) := evalED h r d in (addsub neg v c, t)
+    | ELScale c h => let (v, t) := evalED h r d in (amul v c, amul t c)
     end.
 
   (* the Fisher form the metric is supposed to be:  sum_i c_i J_i^dagger N_i^-1 J_i  through the
@@ -329,6 +347,8 @@ Section Alg.
         adj (snd (lin om e r)) (match icov with None => fun j => amul a1 (t j) | Some N => fun j => amul (N j) (t j) end)
     | EScale c h => fun k i => amul c (fisher om h r d k i)
     | EAdd h1 h2 => eadd (fisher om h1 r d) (fisher om h2 r d)
+    | EShift _ _ h => fisher om h r d               (* an additive constant does not change the metric *)
+    | ELScale c h => fun k i => amul c (fisher om h r d k i)
     end.
 
   Fixpoint scales_nonneg (h : energy) : bool :=
@@ -336,6 +356,7 @@ Section Alg.
     | EGauss _ _ _ _ => true
     | EScale c h => anonneg c && scales_nonneg h
     | EAdd h1 h2 => scales_nonneg h1 && scales_nonneg h2
+    | EShift _ _ h | ELScale _ h => scales_nonneg h
     end.
 
   (* ---- dense matrices for the correspondence check ------------------------------------------- *)
@@ -358,6 +379,6 @@ Arguments Scale {A P}. Arguments Ptw {A P}. Arguments Mul {A P}. Arguments Add {
 Arguments Sum {A P}. Arguments Vdot {A P}. Arguments Sq2 {A P}.
 Arguments D {A}. Arguments Sc {A}. Arguments Contract {A}. Arguments Vd {A}.
 Arguments JX {A}. Arguments JNull {A}. Arguments JCh {A}. Arguments JAd {A}. Arguments JMask {A}.
-Arguments EGauss {A P}. Arguments EScale {A P}. Arguments EAdd {A P}.
+Arguments EGauss {A P}. Arguments EScale {A P}. Arguments EAdd {A P}. Arguments EShift {A P}. Arguments ELScale {A P}.
 Arguments MSand {A}. Arguments MScale {A}. Arguments MAdd {A}. Arguments MMask {A}.
 Arguments Build_ptw_entry {A}. Arguments pf {A}. Arguments phf {A}. Arguments phd {A}.
